@@ -21,6 +21,7 @@ CONSTANTS Vals,        \* validator ids
           CEff,        \* [Claims -> effect id]  everything the handler reads
           CCompass,    \* [Claims -> compass id]
           CApplicable, \* [Claims -> BOOLEAN]    e.g. token registered
+          CHeight,     \* [Claims -> remote block height of the event]
           Powers,      \* set of powers a validator can be set to
           InitPower,   \* [Vals -> power]
           MaxNonce, MaxEpoch, MaxVotes
@@ -31,12 +32,13 @@ VARIABLES last,     \* last observed event nonce
           atts,     \* [key <<nonce, hash>> -> [votes, observed, body]]  (body = claim that created it)
           power,    \* [Vals -> current power], 0 when not bonded
           compass, epoch,
+          lastEth,  \* remote block height of the last observed event (never decreases, not reset by overrides)
           effects,  \* [effect id -> times applied]
           res,
           \* monitors
           applied,  \* sequence of [epoch, nonce, key, body, distinct, total]
           views     \* set of [key, val, claim]: what every voter saw when it voted
-vars == <<last, cursor, atts, power, compass, epoch, effects, res, applied, views>>
+vars == <<last, cursor, atts, power, compass, epoch, lastEth, effects, res, applied, views>>
 
 Effects == {CEff[c] : c \in Claims}
 Key(c) == <<CNonce[c], CHash[c]>>
@@ -52,7 +54,7 @@ Total == SetPower(Vals, power)
 Above66(sum, total) == sum > (66 * total) \div 100
 
 Init == /\ last = 0 /\ cursor = [v \in Vals |-> Unset] /\ atts = <<>> /\ power = InitPower
-        /\ compass = 1 /\ epoch = 0 /\ effects = [e \in Effects |-> 0] /\ res = "init"
+        /\ compass = 1 /\ epoch = 0 /\ lastEth = 0 /\ effects = [e \in Effects |-> 0] /\ res = "init"
         /\ applied = <<>> /\ views = {}
 
 (* Attest: contiguity per validator, same remote height as the stored body (implied by the hash here),
@@ -70,7 +72,7 @@ Vote(v, c) ==
           /\ views' = views \cup {[key |-> k, val |-> v, claim |-> c]}
           /\ res' = "ok"
      ELSE UNCHANGED <<atts, cursor, views>> /\ res' = "fail"
-  /\ UNCHANGED <<last, power, compass, epoch, effects, applied>>
+  /\ UNCHANGED <<last, power, compass, epoch, lastEth, effects, applied>>
 
 (* One pass of attestationTally.  Attestations of other compass deployments are skipped; at each nonce equal to
    last+1 the attestations are tried in store order; an already observed attestation at that nonce aborts the pass. *)
@@ -87,15 +89,18 @@ TallyFrom(st) ==
   IN IF obs # {} \/ rdy = {} THEN st
      ELSE LET k == CHOOSE x \in rdy : \A y \in rdy : x[2] <= y[2]    \* deterministic representative (at most one can be ready)
               b == st.atts[k].body IN
+          IF CHeight[b] < st.lastEth THEN st      \* remote height would roll back: error before anything is changed, pass aborted
+          ELSE
           TallyFrom([last |-> n,
+                     lastEth |-> CHeight[b],
                      atts |-> [st.atts EXCEPT ![k].observed = TRUE],
                      effects |-> IF CApplicable[b] THEN [st.effects EXCEPT ![CEff[b]] = @ + 1] ELSE st.effects,
                      applied |-> Append(st.applied, [epoch |-> epoch, nonce |-> n, key |-> k, body |-> b,
                                                      distinct |-> SetPower(Range(st.atts[k].votes), power), total |-> Total])])
 
 Tally(catchup) ==
-  LET st == TallyFrom([last |-> last, atts |-> atts, effects |-> effects, applied |-> applied]) IN
-  /\ last' = st.last /\ atts' = st.atts /\ effects' = st.effects /\ applied' = st.applied
+  LET st == TallyFrom([last |-> last, lastEth |-> lastEth, atts |-> atts, effects |-> effects, applied |-> applied]) IN
+  /\ last' = st.last /\ lastEth' = st.lastEth /\ atts' = st.atts /\ effects' = st.effects /\ applied' = st.applied
   /\ cursor' = IF catchup THEN [v \in Vals |-> IF cursor[v] # Unset /\ cursor[v] < st.last THEN st.last ELSE cursor[v]] ELSE cursor
   /\ res' = "eb"
   /\ UNCHANGED <<power, compass, epoch, views>>
@@ -104,17 +109,17 @@ Override(n) ==
   /\ last' = n
   /\ cursor' = [v \in Vals |-> IF cursor[v] = Unset THEN Unset ELSE n]
   /\ epoch' = epoch + 1 /\ res' = "gov"
-  /\ UNCHANGED <<atts, power, compass, effects, applied, views>>
+  /\ UNCHANGED <<atts, power, compass, lastEth, effects, applied, views>>
 
 Activate(cid) ==
   /\ compass' = cid /\ last' = 0
   /\ cursor' = [v \in Vals |-> IF cursor[v] = Unset THEN Unset ELSE 0]
   /\ epoch' = epoch + 1 /\ res' = "gov"
-  /\ UNCHANGED <<atts, power, effects, applied, views>>
+  /\ UNCHANGED <<atts, power, lastEth, effects, applied, views>>
 
 SetPowerOf(v, p) ==
   /\ power' = [power EXCEPT ![v] = p] /\ res' = "stake"
-  /\ UNCHANGED <<last, cursor, atts, compass, epoch, effects, applied, views>>
+  /\ UNCHANGED <<last, cursor, atts, compass, epoch, lastEth, effects, applied, views>>
 
 Next == \/ \E v \in Vals, c \in Claims : Vote(v, c)
         \/ \E cu \in BOOLEAN : Tally(cu)
